@@ -181,7 +181,14 @@ func (e *Engine) verifyFunc(key string) (ctx *FuncCtx) {
 			v = &Val{T: t, S: app("mk_"+srt, bn, "0", app("len_"+srt, name), app("nil_"+srt, name)), Sort: srt}
 		}
 		if obj, ok := e.info.Defs[id].(*types.Var); ok && obj != nil {
-			st.vars[obj] = v
+			if c.heapLocals[obj] {
+				// a struct parameter whose address is taken lives in the heap
+				ref := c.alloc(st, t)
+				c.storeStruct(st, ref, v)
+				st.vars[obj] = &Val{T: t, S: ref, Sort: "Int"}
+			} else {
+				st.vars[obj] = v
+			}
 			c.params[obj] = true
 		}
 		c.paramList = append(c.paramList, paramInfo{Name: id.Name, T: t, Term: name})
